@@ -24,6 +24,8 @@ LnkA(p, tg) == p :> [t |-> "link", abs |-> TRUE,  tgt |-> tg]    \* absolute tar
 R == <<"u1", "u2">>          \* the forests proper live two plain directories below TOP
 r(x) == R \o x
 
+XD == "a (deleted)"
+
 \* directories and files every forest has: names a, b on three levels so that random strings
 \* over {a, b, l1, l2, ., .., ""} usually lead somewhere
 Skeleton ==
@@ -31,6 +33,12 @@ Skeleton ==
   @@ Dir(r(<<"a">>)) @@ Dir(r(<<"a","a">>)) @@ File(r(<<"a","b">>))
   @@ File(r(<<"a","a","a">>)) @@ Dir(r(<<"a","a","b">>))
   @@ Dir(r(<<"b">>)) @@ File(r(<<"b","a">>)) @@ Dir(r(<<"b","b">>)) @@ File(r(<<"b","b","a">>))
+  \* name classes: a name is any byte string without "/" and NUL.  Live objects whose names look like
+  \* something else: the suffix procfs appends to the link text of an UNLINKED object, and a leading "..".
+  \* Each has a sibling with the plain name, so a mangled answer names another existing object.
+  @@ Dir(r(<<XD>>)) @@ File(r(<<XD, "a">>)) @@ Dir(r(<<XD, "b">>)) @@ File(r(<<XD, "b (deleted)">>))
+  @@ Dir(r(<<"a","a","b (deleted)">>)) @@ File(r(<<"a","a","b (deleted)","a">>))
+  @@ Dir(r(<<"b","..b">>)) @@ File(r(<<"b","..b","a">>))
 
 \* 1: relative links, in last / middle / first position
 F1 == Skeleton
@@ -83,8 +91,9 @@ Forest(i) == CASE i = 1 -> F1 [] i = 2 -> F2 [] i = 3 -> F3 [] i = 4 -> F4
 
 \* working directories and directories used for descriptors (all exist as real directories in
 \* every forest; DirPaths are *opened by name*, possibly through links, see Base)
-Cwds     == << R, r(<<"a">>), r(<<"a","a">>) >>
-DirPaths == << r(<<"b">>), r(<<"a","a">>), r(<<"l1">>), r(<<"a","l2">>), r(<<"b","l1">>) >>
+Cwds     == << R, r(<<"a">>), r(<<"a","a">>), r(<<XD>>) >>
+DirPaths == << r(<<"b">>), r(<<"a","a">>), r(<<"l1">>), r(<<"a","l2">>), r(<<"b","l1">>),
+               r(<<XD>>), r(<<"a","a","b (deleted)">>), r(<<"b","..b">>) >>
 
 NodeT(F, p) == IF p = <<>> THEN "dir" ELSE IF p \in DOMAIN F THEN F[p].t ELSE "none"
 
